@@ -132,7 +132,7 @@ MUTANTS = [
     M('C17-unwrap', 'C17', 'R1/', (TRANS, 'let val = c.to_string().parse::<u64>()? as f64;', 'let val = c.to_string().parse::<u64>().unwrap() as f64;')),
     # C18
     M('C18-cool-in-inner-loop', 'C18', 'R1/', (OPT, '                        loop_rejections += 1;\n                        score_current', '                        loop_rejections += 1;\n                        kt *= self.kt_ratio;\n                        score_current')),
-    M('C18-one-plus-ratio', 'C18', 'R2/factor:kt_ratio=Some', (OPT, '(Some(ratio), _) => 1. - ratio,', '(Some(ratio), _) => 1. + ratio,')),
+    M('C18-one-plus-ratio', 'C18', 'R2/factor:kt_ratio=Some', (OPT, '(Some(ratio), _) => f64::max(0., 1. - ratio),', '(Some(ratio), _) => f64::max(0., 1. + ratio),')),
     M('C18-exponent-steps', 'C18', 'R2/BuildOptimiser::build/exponent-vs-trip-count', (OPT, 'f64::powf(finish / self.kt_start, 1. / loops)', 'f64::powf(finish / self.kt_start, 1. / self.steps as f64)')),
     M('C18-inverse-ratio', 'C18', 'R2/BuildOptimiser::build/exponent-vs-trip-count', (OPT, 'f64::powf(finish / self.kt_start, 1. / loops)', 'f64::powf(self.kt_start / finish, 1. / loops)')),
     # C19
